@@ -663,7 +663,7 @@ func c16Case(run *evid.Run, i int, j *Journal) {
 		}
 	}
 	run.Eval(1)
-	if i < 2 {
+	if i < 2 || run.NumSamples() < 2 {
 		m := histSample(h)
 		m["pair"] = fmt.Sprintf("r%d.Join(r%d, n) for n in 0..%d", a, b, total+3)
 		run.Sample(m)
